@@ -723,7 +723,13 @@ func (e *Exec) selectOp(t *Thread, f *Frame, x *ssa.Select, granted bool) stepRe
 
 // ---- sync primitives (objects are the real sync.Mutex / WaitGroup / Once structs) -----------------------
 
+type lockEvent struct {
+	tid int
+	at  *term.T
+}
+
 type syncState struct {
+	acq    []lockEvent
 	locked bool
 	count  int64
 	done   bool
